@@ -19,6 +19,34 @@ import (
 var concMu sync.Mutex
 var concCache = map[string][]uint64{}
 
+// TryConcretize is ConcretizeTerm when t has at most limit+1 feasible values,
+// all of them <= limit; otherwise it returns t unchanged and false.
+func (p *Path) TryConcretize(t *smt.Term, limit int) (r *smt.Term, ok bool) {
+	if t.IsConst() {
+		return t, true
+	}
+	if p.M.SolveHyps == nil {
+		return t, false
+	}
+	ok = true
+	func() {
+		defer func() {
+			if e := recover(); e != nil {
+				if u, isU := e.(Unsupported); isU && strings.HasPrefix(u.Msg, "concretisation: more than") {
+					ok = false
+					return
+				}
+				panic(e)
+			}
+		}()
+		r = p.ConcretizeTerm(t, limit)
+	}()
+	if !ok {
+		return t, false
+	}
+	return r, true
+}
+
 // ConcretizeTerm returns a constant equal to t on the current path.
 func (p *Path) ConcretizeTerm(t *smt.Term, limit int) *smt.Term {
 	if t.IsConst() {
